@@ -10,6 +10,21 @@ CHECKS = {
          "Every (etype, plaintext length 0..130, usage, key) case of the enumerated grid is encrypted by gokrb5 and decrypted by an independent RFC 3961/3962/8009/4757 implementation and vice versa; ciphertext length formula and confounder freshness are asserted on every case. Held means: no disagreement on the enumerated grid, not a proof for all keys/contents.",
          "Trusts ref/kcrypto (written from the RFC text, self-tested against the RFC vectors at every run; cross-checked against the JDK's sun.security.krb5 implementation by setup when a JDK is present).",
          "5.C05"),
+ "C06": ("runtime monitor by construction: non-identity transformations of reference ciphertexts must all be rejected",
+         "exploration",
+         "Every base ciphertext (etype x plaintext length 0..64 x keys) is produced by the independent reference; every single-bit flip and every truncation (exhaustive), appends, block swaps, every other usage and unrelated/mis-sized keys are presented to DecryptMessage, which must return an error and no plaintext; the untouched base must decrypt.",
+         "Trusts ref/kcrypto to produce authentic ciphertexts (C05 cross-checks that in both directions). A success also accepted by the reference would be reported inconclusive (MAC collision).",
+         "5.C06"),
+ "C07": ("differential runtime monitor: checksum values vs independent RFC reference; negative verification by construction",
+         "exploration",
+         "GetChecksumHash equals the reference for the enumerated grid (type x data length 0..200 x usage set x keys); VerifyChecksum is true for exactly that value and false for every truncation, single-bit flip, extension, other data/key/usage on every 8th case; GetChksumEtype is compared with the IANA registry for ids -200..200.",
+         "Trusts ref/kcrypto checksums (RFC vectors self-test at every run).",
+         "5.C07"),
+ "C08": ("differential runtime monitor: key derivation vs independent RFC reference; PA-data precedence oracle; generated-key usability",
+         "exploration",
+         "string-to-key over password classes (ASCII..supplementary plane) x salts x iteration counts, n-fold for every input length 1..64 x 5 output sizes, DK/DR/KDF-HMAC-SHA2, des3 random-to-key incl. all weak/semi-weak groups, every permutation of every subset of the three PA-data hints, and 200 generated keys per etype are compared with / used through the independent reference.",
+         "Trusts ref/kcrypto (RFC 3961 A.1/A.3/A.4, RFC 3962 B, RFC 8009 A vectors). Iteration count 0 (2^32 iterations) and des3 with empty password+salt are not exercised.",
+         "5.C08"),
 }
 
 NOT_YET = "check not built yet in this revision of /verif (construction in progress, see DESIGN.md section 9)"
